@@ -853,21 +853,35 @@ func (repo *GoGitRepo) ReadCommit(hash Hash) (Commit, error) {
 	}
 
 	if commit.PGPSignature != "" {
-		// I can't find a way to just remove the signature when reading the encoded commit so we need to
-		// re-encode the commit without signature.
-
-		encoded := &plumbing.MemoryObject{}
-		err := commit.EncodeWithoutSignature(encoded)
+		// The signature covers the exact bytes of the commit, without the gpgsig header. Encoding
+		// again what go-git decoded is not the same thing: go-git ignores what it doesn't know
+		// (other headers, blanks, repeated headers ...), all of that could be added to a signed
+		// commit without breaking the signature.
+		obj, err := repo.r.Storer.EncodedObject(plumbing.CommitObject, plumbing.NewHash(hash.String()))
+		if err != nil {
+			return Commit{}, err
+		}
+		reader, err := obj.Reader()
+		if err != nil {
+			return Commit{}, err
+		}
+		raw, err := io.ReadAll(reader)
+		_ = reader.Close()
 		if err != nil {
 			return Commit{}, err
 		}
 
-		result.SignedData, err = encoded.Reader()
+		payload, armored, err := splitCommitSignature(raw)
 		if err != nil {
 			return Commit{}, err
 		}
+		if armored == "" {
+			return Commit{}, fmt.Errorf("commit %s: malformed signature header", hash)
+		}
 
-		result.Signature, err = deArmorSignature(strings.NewReader(commit.PGPSignature))
+		result.SignedData = bytes.NewReader(payload)
+
+		result.Signature, err = deArmorSignature(strings.NewReader(armored))
 		if err != nil {
 			return Commit{}, err
 		}
